@@ -11,6 +11,7 @@
 import argparse
 import hashlib
 import importlib
+import multiprocessing as mp
 import json
 import os
 import sys
@@ -68,6 +69,17 @@ def _with_oracle(mod, pid, recs):
     return recs
 
 
+class CaseTimeout(Exception):
+    pass
+
+
+def _alarm(signum, frame):
+    raise CaseTimeout()
+
+
+CASE_TIMEOUT_S = int(os.environ.get("VERIF_CASE_TIMEOUT", "180"))
+
+
 def _run_chunk(args):
     comp, cases = args[0], args[1]
     pid = args[2] if len(args) > 2 else None
@@ -75,13 +87,32 @@ def _run_chunk(args):
     out = []
     if hasattr(mod, "run_batch"):
         return _with_oracle(mod, pid, mod.run_batch(cases))
+    import signal
+    try:
+        signal.signal(signal.SIGALRM, _alarm)
+        can_alarm = True
+    except Exception:
+        can_alarm = False
     for c in cases:
         try:
-            r = mod.run(c)
+            if can_alarm:
+                signal.alarm(CASE_TIMEOUT_S)
+            try:
+                r = mod.run(c)
+            finally:
+                if can_alarm:
+                    signal.alarm(0)
             if isinstance(r, list):
                 out.extend(r)
             else:
                 out.append(r)
+        except CaseTimeout:
+            # the real code did not return: reported as a failure of the call, with the case as the replay
+            from core import Record
+            r = Record(comp, dict(c) if isinstance(c, dict) else {"case": repr(c)[:500]}, {})
+            r.err = "the call did not return within %d s (non-terminating loop?)" % CASE_TIMEOUT_S
+            r.cfg["timed_out"] = True
+            out.append(r)
         except Exception as e:   # harness bug or a crash of the real code outside run()'s own guard
             from core import Record
             r = Record(comp, {"harness_exception": "%s: %s" % (type(e).__name__, e)}, {})
@@ -90,14 +121,101 @@ def _run_chunk(args):
     return _with_oracle(mod, pid, out)
 
 
+def _child(conn, args):
+    try:
+        conn.send(("ok", _run_chunk(args)))
+    except BaseException:
+        try:
+            conn.send(("exc", traceback.format_exc()[-1500:]))
+        except Exception:
+            pass
+    finally:
+        conn.close()
+
+
+def _run_isolated(chunks, workers, deadline_per_case):
+    """every chunk in a forked child: a crash (or a hang in native code) of the real code is an outcome of
+    the case that caused it, not the end of the check. Returns one ('ok', recs) / ('crash', status) /
+    ('hang', None) / ('exc', text) per chunk, in order."""
+    import multiprocessing.connection as mpc
+    ctx = mp.get_context("fork")
+    results = [None] * len(chunks)
+    pending = list(range(len(chunks)))
+    running = {}
+    while pending or running:
+        while pending and len(running) < workers:
+            i = pending.pop(0)
+            rd, wr = ctx.Pipe(duplex=False)
+            pr = ctx.Process(target=_child, args=(wr, chunks[i]))
+            pr.start()
+            wr.close()
+            running[i] = (pr, rd, time.time() + 120 + deadline_per_case * max(1, len(chunks[i][1])))
+        mpc.wait([c for (_, c, _) in running.values()] + [p.sentinel for (p, _, _) in running.values()], timeout=5.0)
+        for i, (pr, rd, dl) in list(running.items()):
+            msg = None
+            if rd.poll():
+                try:
+                    msg = rd.recv()
+                except (EOFError, OSError):
+                    msg = None
+                pr.join(30)
+                if pr.is_alive():
+                    pr.kill()
+                    pr.join()
+                results[i] = msg if msg is not None else ("crash", pr.exitcode)
+            elif not pr.is_alive():
+                pr.join()
+                results[i] = ("crash", pr.exitcode)
+            elif time.time() > dl:
+                pr.kill()
+                pr.join()
+                results[i] = ("hang", None)
+            else:
+                continue
+            rd.close()
+            del running[i]
+    return results
+
+
 def run_cases(comp, cases, pool, pid=None):
-    if pool is None or len(cases) < 64:
-        return _run_chunk((comp, cases, pid))
-    k = max(1, len(cases) // (pool._processes * 4))
+    """`pool` only says how wide to go (None: quick tier)."""
+    if not cases:
+        return []
+    workers = min(16, os.cpu_count() or 1) if pool is not None else min(8, os.cpu_count() or 1)
+    k = max(1, -(-len(cases) // (workers * (4 if pool is not None else 1))))
     chunks = [(comp, cases[i:i + k], pid) for i in range(0, len(cases), k)]
+    res = _run_isolated(chunks, workers, CASE_TIMEOUT_S)
     out = []
-    for part in pool.map(_run_chunk, chunks):
-        out.extend(part)
+    mod = comp_module(comp)
+    for ch, r in zip(chunks, res):
+        if r[0] == "ok":
+            out.extend(r[1])
+            continue
+        if r[0] == "exc":
+            from core import Record
+            rr = Record(comp, {"harness_exception": "chunk failed"}, {})
+            rr.err = "harness: " + str(r[1])
+            out.extend(_with_oracle(mod, pid, [rr]))
+            continue
+        # the child died or hung: find the case(s) responsible by running the chunk's cases one at a time
+        singles = [(comp, [c], pid) for c in ch[1]]
+        sres = _run_isolated(singles, workers, CASE_TIMEOUT_S) if len(ch[1]) > 1 else [r]
+        for c, sr in zip(ch[1], sres):
+            if sr[0] == "ok":
+                out.extend(sr[1])
+                continue
+            from core import Record
+            rr = Record(comp, dict(c) if isinstance(c, dict) else {"case": repr(c)[:500]}, {})
+            if sr[0] == "crash":
+                rr.err = "the interpreter crashed during this call (exit status %s%s)" % (
+                    sr[1], ", SIGSEGV" if sr[1] == -11 else "")
+            elif sr[0] == "hang":
+                rr.err = "the call did not return (killed after the time limit; a loop in native code?)"
+            else:
+                rr.err = "harness: " + str(sr[1])
+                rr.cfg["harness_exception"] = "single-case rerun failed"
+            rr.cfg["crashed"] = True
+            out.extend(_with_oracle(mod, pid, [rr]))
     return out
 
 
@@ -244,7 +362,7 @@ def main_check(pid, tier, seed, write_evidence=True):
 
     # 2./3. correspondence + oracles
     import multiprocessing as mp
-    pool = mp.get_context("fork").Pool(min(16, os.cpu_count() or 1)) if tier == "thorough" or spec.get("parallel") else None
+    pool = True if tier == "thorough" or spec.get("parallel") else None      # width flag for run_cases
     broken_corr = []    # (comp, rec, mismatch)
     cov = None
     try:
@@ -270,16 +388,14 @@ def main_check(pid, tier, seed, write_evidence=True):
             cases.extend(mod.gen(rng, n, **gargs))
             # a sequential sample runs in this process under line coverage of the anchored files
             k_cov = min(len(cases), 80)
-            recs = []
-            if cov is not None and k_cov:
+            recs = run_cases(comp, cases, pool, pid)
+            if cov is not None and k_cov and not any(r.cfg.get("crashed") or r.cfg.get("timed_out") for r in recs[:k_cov + 5]):
+                # (only after the same cases have run in child processes without killing or hanging them)
                 cov.start()
                 try:
-                    recs = _run_chunk((comp, cases[:k_cov], pid))
+                    _run_chunk((comp, cases[:k_cov], pid))
                 finally:
                     cov.stop()
-                recs = recs + run_cases(comp, cases[k_cov:], pool, pid)
-            else:
-                recs = run_cases(comp, cases, pool, pid)
             mism = correspond(comp, recs)
             oracle = mod.ORACLES[pid]
             cstat = {"records": len(recs), "mismatches": 0, "oracle_failures": 0, "nontrivial": 0, "impl_errors": 0}
@@ -333,12 +449,7 @@ def main_check(pid, tier, seed, write_evidence=True):
                 gargs = dict(spec.get("gen_args", {}).get(comp, {}))
                 gargs.update(spec.get("gen_args_" + tier, {}).get(comp, {}))
                 cases = list(mod.gen(rng, budget, **gargs))
-                pool2 = pool or mp.get_context("fork").Pool(min(16, os.cpu_count() or 1))
-                try:
-                    recs = run_cases(comp, cases, pool2, pid)
-                finally:
-                    if pool is None:
-                        pool2.terminate()
+                recs = run_cases(comp, cases, True, pid)
                 searched += len(recs)
                 for r in recs:
                     v = getattr(r, "oracle_result", None)
@@ -372,8 +483,7 @@ def main_check(pid, tier, seed, write_evidence=True):
                     pass
             stats["line_coverage"] = lc
     finally:
-        if pool is not None:
-            pool.terminate()
+        pass
 
     # 5. outcome
     n_viol = 0
